@@ -1,5 +1,5 @@
 (* C44 (c): refutation, by a witness, of "the jacobian of the orthotropic plane-stress class is the derivative of its residual"
-   (defect F24 of the pinned tree: dfetozz_ddeel is filled with D(1,0)/D(1,1), D(2,0)/D(1,1) instead of D(2,0)/D(2,2), D(2,1)/D(2,2)).
+   (defect F-C44b of the pinned tree: dfetozz_ddeel is filled with D(1,0)/D(1,1), D(2,0)/D(1,1) instead of D(2,0)/D(2,2), D(2,1)/D(2,2)).
    Selected by check.py while the execution stage observes the defect (key exec:pstress-tangent:ortho). *)
 From Coq Require Import Reals List Lra Lia.
 Import ListNotations.
